@@ -534,7 +534,23 @@ class HL:
         self.nfork = 0
         self.ndiverge = 0
 
+    # buffer sizes that are literals inside function bodies (not reachable by the constants probe): the model
+    # carries them as CURTOK / HOSTBUF / iterSuffix / NTHBUF; a change in the source must be mirrored there
+    LITERALS = [r"char\s+cur_tok\[1024\]", r"strncpy\(cur_tok, tok, sizeof \(cur_tok\) - 1\)", r"char\s+host\[4096\]",
+                r"snprintf \(host, 4096,", r"char\s+suffix\[16\]", r"snprintf \(suffix, 15,",
+                r"char\s+buf\[MAXHOSTNAMELEN \+ 16\]", r"size = strlen\(hr->prefix\) \+ hr->width \+ 16;"]
+
     def build(self):
+        from vlib.common import REPO
+        try:
+            src = open(os.path.join(REPO, "src/common/hostlist.c"), errors="replace").read()
+            gone = [l for l in self.LITERALS if not re.search(l, src)]
+        except OSError as e:
+            gone = [str(e)]
+        if gone:
+            self.ctx.broken.append(("C-BROKEN", "hostlist.c buffer literals",
+                                    "the source no longer contains %s: the buffer sizes of the model "
+                                    "(Hostlist/Parse.lean CURTOK, HOSTBUF; Iter.lean iterSuffix, NTHBUF) must be re-read" % gone))
         return self.ctx.cc(self.exe, [os.path.join(HARNESS, "hl_harness.c")], san=True, assertions=True)
 
     def model(self, lines):
